@@ -111,6 +111,34 @@ func (e *Engine) verifyBlock(blk *Block) (u *Unit) {
 			return u
 		}
 	}
+	// a package initialiser is verified for the run that actually initialises
+	// (its guard is still false), and its proved postconditions (flag
+	// global-invariant) are assumed at the entry of every other unit of the
+	// package - sound because nothing else writes the globals they mention
+	// (checked below)
+	if fn.Pkg != nil && fn == fn.Pkg.Func("init") {
+		if g, ok := fn.Pkg.Members["init$guard"].(*ssa.Global); ok {
+			c.store(st, c.shapeOf(c.globalRef(g), g.Type()), []Term{TFalse})
+		}
+		if blk.Flags["global-invariant"] {
+			if msg := e.globalsWrittenOutsideInit(blk); msg != "" {
+				u.Err = "global-invariant: " + msg
+				return u
+			}
+		}
+	} else if fn.Pkg != nil {
+		if ib := e.ld.ByFn[fn.Pkg.Func("init")]; ib != nil && ib.Flags["global-invariant"] && ib != blk {
+			for _, cl := range ib.Post {
+				if cl.Fn.Signature.Params().Len() != 0 {
+					continue
+				}
+				t := c.evalSpecFn(cl.Fn, nil, st, snapOf(st), f)[0]
+				st.assume(c, t)
+				c.note("assumed", "global invariant of package "+fn.Pkg.Pkg.Name()+" (proved for its initialiser, globals not written elsewhere): "+cl.Text)
+				c.used[ib] = true
+			}
+		}
+	}
 	// preconditions
 	entrySnap := snapOf(st)
 	for _, cl := range blk.Pre {
@@ -149,6 +177,10 @@ func (e *Engine) verifyBlock(blk *Block) (u *Unit) {
 		}
 		all := append(append([][]Term{}, f.argVals...), resVals...)
 		for _, cl := range blk.Post {
+			if cl.Assumed {
+				c.note("assumed", "assumed postcondition of "+name+" (not proved against its body): "+cl.Text)
+				continue
+			}
 			pa := all
 			if cl.RecvOnly {
 				pa = all[:1]
@@ -233,4 +265,71 @@ func shortPos(p string) string {
 		return p[i+6:]
 	}
 	return p
+}
+
+// globalsWrittenOutsideInit: the globals mentioned by the postconditions of a
+// package initialiser must not be written (nor, for maps, updated) by any
+// other function of the package; returns a description of the first offender.
+func (e *Engine) globalsWrittenOutsideInit(ib *Block) string {
+	initFn := ib.Target
+	globals := map[*ssa.Global]bool{}
+	for _, cl := range ib.Post {
+		for _, b := range cl.Fn.Blocks {
+			for _, in := range b.Instrs {
+				for _, op := range in.Operands(nil) {
+					if g, ok := (*op).(*ssa.Global); ok {
+						globals[g] = true
+					}
+				}
+			}
+		}
+	}
+	fromGlobal := func(v ssa.Value) *ssa.Global {
+		if u, ok := v.(*ssa.UnOp); ok {
+			if g, ok := u.X.(*ssa.Global); ok && globals[g] {
+				return g
+			}
+		}
+		if g, ok := v.(*ssa.Global); ok && globals[g] {
+			return g
+		}
+		return nil
+	}
+	for _, fn := range e.allFuncs {
+		if fn == initFn || fn.Pkg != initFn.Pkg && (fn.Parent() == nil || rootFunction(fn).Pkg != initFn.Pkg) {
+			continue
+		}
+		pos := e.ld.Prog.Fset.Position(fn.Pos())
+		if strings.HasSuffix(pos.Filename, "_verif.go") {
+			continue
+		}
+		for _, b := range fn.Blocks {
+			for _, in := range b.Instrs {
+				switch in := in.(type) {
+				case *ssa.Store:
+					if g := fromGlobal(in.Addr); g != nil {
+						return fn.String() + " assigns " + g.Name()
+					}
+				case *ssa.MapUpdate:
+					if g := fromGlobal(in.Map); g != nil {
+						return fn.String() + " updates the map " + g.Name()
+					}
+				case ssa.CallInstruction:
+					cc := in.Common()
+					if bi, ok := cc.Value.(*ssa.Builtin); ok && bi.Name() == "delete" && len(cc.Args) > 0 {
+						if g := fromGlobal(cc.Args[0]); g != nil {
+							return fn.String() + " deletes from the map " + g.Name()
+						}
+					}
+					// the global's address or the map itself handed to a callee that could modify it
+					for _, a := range cc.Args {
+						if g, ok := a.(*ssa.Global); ok && globals[g] {
+							return fn.String() + " passes the address of " + g.Name() + " to a call"
+						}
+					}
+				}
+			}
+		}
+	}
+	return ""
 }
